@@ -32,4 +32,6 @@ CONSTANTS
   PlainIdentity = FALSE
   KeyByNumber = FALSE
   CryptProbeDirectOnly = FALSE
+  ParmRefLayouts = {}
+  InlinedAsIs = FALSE
 INVARIANTS NoPanic
